@@ -326,6 +326,12 @@ func (r *Run) eqValue(a, b Value, t types.Type) *Term {
 		return tt.Eq(x, b.(*Term))
 	case StrV:
 		y := b.(StrV)
+		if x.Opaque && x.NonEmpty && !y.Opaque && len(y.B) == 0 {
+			return tt.False
+		}
+		if y.Opaque && y.NonEmpty && !x.Opaque && len(x.B) == 0 {
+			return tt.False
+		}
 		if x.Opaque || y.Opaque {
 			r.unsupported("comparison of opaque string")
 		}
@@ -439,7 +445,7 @@ func (r *Run) binop(op token.Token, x, y Value, xt, yt types.Type) Value {
 			nb := make([]*Term, 0, len(xs.B)+len(ys.B))
 			nb = append(nb, xs.B...)
 			nb = append(nb, ys.B...)
-			return StrV{B: nb, Opaque: xs.Opaque || ys.Opaque}
+			return StrV{B: nb, Opaque: xs.Opaque || ys.Opaque, NonEmpty: (xs.Opaque || ys.Opaque) && (xs.NonEmpty || ys.NonEmpty || len(nb) > 0)}
 		case token.LSS:
 			return r.strLess(xs, ys, false)
 		case token.LEQ:
